@@ -51,7 +51,17 @@ FINDING_ENV_APPEND = "C04-envcfg-append"
 # file slots of the default_config_files patterns, in the LISTED order of the patterns; the middle
 # pattern is a glob (matches come sorted).  Names are chosen so that listed order != alphabetical order.
 DCF_PATTERNS = ["z.json", "m*.json", "a.json"]
-DCF_ORDER = ["z.json", "m1.json", "m2.json", "a.json"]
+DCF_ORDER = ["z.json", "m1.json", "m2.json", "a.json"]   # the four file slots (mask bits 0-3)
+# lists of default_config_files entries: listed order != alphabetical order, globs, files reached by two entries
+DCF_PATTERN_POOL = [
+    ["z.json", "m*.json", "a.json"],
+    ["m*.json", "z.json", "m1.json"],
+    ["a.json", "*.json"],
+    ["z.json", "[am]*.json", "z.json"],
+    ["m2.json", "m1.json", "m?.json", "a.json"],
+    ["*.json", "m1.json", "a.json"],
+]
+FINDING_STRING_NODEFAULTS = "C04-string-nodefaults"
 
 DEST_POOL = ["n", "m", "s", "l", "d", "k", "g.l", "g.o", "g.d", "g.s", "h.x.y", "h.x.l", "h.s", "h.d"]
 TYPES = ["int", "str", "list", "dict"]
@@ -83,7 +93,7 @@ def build_parser(spec, root):
             kw["env_prefix"] = False
         p = ArgumentParser(
             prog="app", exit_on_error=False, default_env=spec["default_env"],
-            default_config_files=[os.path.join(root, "dcf", x) for x in DCF_PATTERNS], **kw,
+            default_config_files=[os.path.join(root, "dcf", x) for x in spec.get("dcf_patterns", DCF_PATTERNS)], **kw,
         )
         for a in spec["args"]:
             if a["type"] == "config":
@@ -160,9 +170,26 @@ def render(v, typ):
     return json.dumps(v)
 
 
-def present_files(case):
-    """existing default config files in the order the documentation promises: patterns as listed, glob matches sorted"""
-    return [name for name in DCF_ORDER if name in case.get("files", {})]
+def present_files(spec, case):
+    """default config files in the order the documentation promises: entries as listed, the matches of one entry sorted,
+    a file reached by two entries at both positions"""
+    import fnmatch
+
+    out = []
+    for pat in spec.get("dcf_patterns", DCF_PATTERNS):
+        out += sorted(n for n in case.get("files", {}) if fnmatch.fnmatchcase(n, pat))
+    return out
+
+
+def call_of(case):
+    return case.get("defaults", True), case.get("env_arg")
+
+
+def env_is_read(spec, case):
+    if case["method"] in ("env", "env_dict"):
+        return True
+    env_arg = case.get("env_arg")
+    return expected_env_on(spec) if env_arg is None else env_arg
 
 
 def canon_value(v):
@@ -250,23 +277,39 @@ def real_run(parser, spec, case, root):
         else:
             argv.append(opt + "=" + val)
     method = case["method"]
-    saved = {k: os.environ.get(k) for k in env}
+    # parse_env(mapping): the process environment holds DIFFERENT values for the same variables; they must play no role
+    decoys = {}
+    if method == "env_dict":
+        for dest, v in case.get("decoy_vars", {}).items():
+            decoys[env_name(spec, dest)] = render(v, arg_of(spec, dest)["type"])
+        if case.get("decoy_cfg") is not None and cd is not None:
+            decoys[env_name(spec, cd)] = json.dumps(case["decoy_cfg"])
+    defaults, env_arg = call_of(case)
+    kw = {}
+    if not defaults:
+        kw["defaults"] = False
+    kwe = dict(kw)
+    if env_arg is not None:
+        kwe["env"] = env_arg
+    saved = {k: os.environ.get(k) for k in list(env) + list(decoys)}
     try:
         if method != "env_dict":
             os.environ.update(env)
+        else:
+            os.environ.update(decoys)
         try:
             if method == "args":
-                ns = parser.parse_args(argv)
+                ns = parser.parse_args(argv, **kwe)
             elif method == "env":
-                ns = parser.parse_env()
+                ns = parser.parse_env(**kw)
             elif method == "env_dict":
-                ns = parser.parse_env(dict(env))
+                ns = parser.parse_env(dict(env), **kw)
             elif method == "string":
-                ns = parser.parse_string(json.dumps(case["tree"]))
+                ns = parser.parse_string(json.dumps(case["tree"]), **kwe)
             elif method == "path":
-                ns = parser.parse_path(cfg_file(case["tree"]))
+                ns = parser.parse_path(cfg_file(case["tree"]), **kwe)
             elif method == "object":
-                ns = parser.parse_object(copy.deepcopy(case["tree"]))
+                ns = parser.parse_object(copy.deepcopy(case["tree"]), **kwe)
             else:
                 raise MachineryError("unknown method " + method)
             return "ok", flat_real(spec, ns)
@@ -301,12 +344,22 @@ def model_line(spec, case):
             argv.append({"t": "item", "k": k, "i": it["i"], "v": enc(it["v"])})
         else:
             argv.append({"t": it["t"], "k": k, "v": enc(it["v"])})
-    files = []
-    for name in present_files(case):
-        tree = case["files"][name]
-        files.append(None if tree is None else enc(tree))
+    import fnmatch
+
+    pats = spec.get("dcf_patterns", DCF_PATTERNS)
+    names = sorted(case.get("files", {}), reverse=True)  # the match relation, deliberately NOT in sorted order
+    glob_tab = [[pat, [n for n in names if fnmatch.fnmatchcase(n, pat)]] for pat in dict.fromkeys(pats)]
+    contents = [[n, None if case["files"][n] is None else enc(case["files"][n])] for n in names]
     method = {"env_dict": "env", "path": "string"}.get(case["method"], case["method"])
-    line = {"parser": model_parser(spec), "files": files, "env": env, "argv": argv, "method": method}
+    defaults, env_arg = call_of(case)
+    call = {"defaults": defaults, "env_arg": env_arg, "environ": None}
+    if case["method"] == "env_dict":  # the mapping is given to the call; os.environ holds the decoys
+        call["environ"] = env
+        env = [[env_name(spec, d), enc(v)] for d, v in case.get("decoy_vars", {}).items()]
+        if case.get("decoy_cfg") is not None and cd is not None:
+            env.append([env_name(spec, cd), enc(case["decoy_cfg"])])
+    line = {"parser": model_parser(spec), "patterns": pats, "glob": glob_tab, "contents": contents, "env": env, "argv": argv,
+            "method": method, "call": call}
     if method in ("string", "object"):
         line["tree"] = enc(case["tree"])
     return line
@@ -346,13 +399,15 @@ def flatten_sources(spec, case, env_append_on_empty=False):
     """documented order: defaults, default config files as listed, env config, env variables, command line left to right"""
     cd = cfg_dest(spec)
     out = []
-    for a in spec["args"]:
-        out.append(("set", a["dest"], a.get("default")))
-    for name in present_files(case):
-        if case["files"][name] is not None:
-            out += flatten_tree(spec, case["files"][name])
+    defaults, _ = call_of(case)
+    if defaults:
+        for a in spec["args"]:
+            out.append(("set", a["dest"], a.get("default")))
+        for name in present_files(spec, case):
+            if case["files"][name] is not None:
+                out += flatten_tree(spec, case["files"][name])
     method = case["method"]
-    env_on = True if method in ("env", "env_dict") else expected_env_on(spec)
+    env_on = env_is_read(spec, case)
     if env_on:
         if case.get("env_cfg") is not None and cd is not None:
             sub = flatten_tree(spec, case["env_cfg"]["tree"])
@@ -385,13 +440,21 @@ def has_env_append(spec, case):
     """signature of the open finding: the config given in the environment variable holds a `key+` entry and is read"""
     if case.get("env_cfg") is None or cfg_dest(spec) is None:
         return False
-    env_on = True if case["method"] in ("env", "env_dict") else expected_env_on(spec)
-    return env_on and any(op == "append" for op, _, _ in flatten_tree(spec, case["env_cfg"]["tree"]))
+    return env_is_read(spec, case) and any(op == "append" for op, _, _ in flatten_tree(spec, case["env_cfg"]["tree"]))
+
+
+def string_nodefaults(case):
+    """signature of the open finding: parse_string / parse_path with defaults=False and without env=True"""
+    return case["method"] in ("string", "path") and not case.get("defaults", True) and case.get("env_arg") is not True
+
+
+def n_defaults(spec, case):
+    return len(spec["args"]) if case.get("defaults", True) else 0
 
 
 def well_formed(spec, case):
     """every key of every source is an argument of the parser (the property speaks about those)"""
-    for op, k, _ in flatten_sources(spec, case)[len(spec["args"]):]:
+    for op, k, _ in flatten_sources(spec, case)[n_defaults(spec, case):]:
         a = arg_of(spec, k)
         if a is None:
             return False
@@ -405,17 +468,25 @@ def well_formed(spec, case):
 
 
 def oracle(spec, case, real):
-    """None if the property holds on this case, else (is_known_finding, description)"""
+    """None if the property holds on this case, else (id of the known finding whose signature and behaviour it matches | False, description)"""
     if not well_formed(spec, case):
         return None
     status, got = real
     want = {k: enc(v) for k, v in ref_fold(flatten_sources(spec, case)).items()}
     if status == "ok" and got == want:
         return None
+    if string_nodefaults(case):
+        # behaviour of the open finding: nothing is merged, the content is returned as loaded; a `key+` entry is then an unknown key
+        tree_asg = flatten_tree(spec, case["tree"])
+        if any(op == "append" for op, _, _ in tree_asg):
+            if status != "ok":
+                return FINDING_STRING_NODEFAULTS, "parse_string(defaults=False) rejects a key+ entry instead of appending to the empty list"
+        elif status == "ok" and got == {k: enc(v) for k, v in ref_fold(tree_asg).items()}:
+            return FINDING_STRING_NODEFAULTS, "parse_string(defaults=False) ignores the environment although default_env is on"
     if has_env_append(spec, case):
         want2 = {k: enc(v) for k, v in ref_fold(flatten_sources(spec, case, env_append_on_empty=True)).items()}
         if status == "ok" and got == want2:
-            return True, "key+ in the environment config appended to an empty list instead of the list built so far"
+            return FINDING_ENV_APPEND, "key+ in the environment config appended to an empty list instead of the list built so far"
     if status != "ok":
         return False, "parse of well-formed sources failed: %s" % got
     bad = sorted(k for k in set(got) | set(want) if got.get(k) != want.get(k))
@@ -467,6 +538,7 @@ def gen_spec(rng, idx=0):
         "env_prefix": rng.choice(["APP", "APP", "my-app", "x1", None]),
         "default_env": ENV_COMBOS[idx % len(ENV_COMBOS)][0],
         "os_default_env": ENV_COMBOS[idx % len(ENV_COMBOS)][1],
+        "dcf_patterns": DCF_PATTERN_POOL[(idx + 1) % len(DCF_PATTERN_POOL)],
     }
     # unprefixed variables must not collide with what the process environment already holds
     if spec["env_prefix"] is None and any(env_name(spec, a["dest"]) in os.environ for a in args):
@@ -519,6 +591,11 @@ def gen_case(rng, spec, mask, method, n_argv, bad=False):
     if rng.random() < 0.15:
         focus = [a["dest"] for a in real_args]
     case = {"method": method, "files": {}, "env_vars": {}, "argv": []}
+    # arguments of the call
+    if rng.random() < 0.12:
+        case["defaults"] = False
+    if method not in ("env", "env_dict") and rng.random() < 0.3:
+        case["env_arg"] = rng.random() < 0.5
     bad_at = rng.choice(["file", "argv", "tree"]) if bad else None
     for bit, name in enumerate(DCF_ORDER):
         if mask >> bit & 1:
@@ -532,6 +609,10 @@ def gen_case(rng, spec, mask, method, n_argv, bad=False):
         for d in focus:
             if rng.random() < 0.7:
                 case["env_vars"][d] = gen_value(rng, arg_of(spec, d)["type"])
+    if method == "env_dict":  # what os.environ holds while the mapping is given explicitly
+        case["decoy_vars"] = {d: gen_value(rng, arg_of(spec, d)["type"]) for d in focus if rng.random() < 0.8}
+        if cd is not None and rng.random() < 0.5:
+            case["decoy_cfg"] = gen_tree(rng, spec, focus, allow_append=False)
     if method == "args":
         for _ in range(n_argv):
             d = rng.choice(focus)
@@ -560,7 +641,7 @@ def gen_case(rng, spec, mask, method, n_argv, bad=False):
 def source_count(spec, case):
     """how many sources assign the most contested key (>= 2: precedence is exercised)"""
     per = {}
-    for op, k, _ in flatten_sources(spec, case)[len(spec["args"]):]:
+    for op, k, _ in flatten_sources(spec, case)[n_defaults(spec, case):]:
         per[k] = per.get(k, 0) + 1
     return 1 + max(per.values()) if per else 1
 
@@ -584,6 +665,15 @@ def shrink_case(case, still_bad):
             c = copy.deepcopy(cur)
             del c["env_vars"][d]
             cands.append(c)
+        for d in list(cur.get("decoy_vars", {})):
+            c = copy.deepcopy(cur)
+            del c["decoy_vars"][d]
+            cands.append(c)
+        for field in ("decoy_cfg", "env_arg", "defaults"):
+            if field in cur and cur[field] is not None:
+                c = copy.deepcopy(cur)
+                del c[field]
+                cands.append(c)
         for i in range(len(cur.get("argv", []))):
             c = copy.deepcopy(cur)
             del c["argv"][i]
@@ -647,13 +737,13 @@ def judge(ctx: Ctx, bench, spec, case, real, origin):
     if res is None:
         return False
     known, desc = res
-    if known and ctx.is_open(FINDING_ENV_APPEND):
-        ctx.known(FINDING_ENV_APPEND, desc)
+    if known and ctx.is_open(known):
+        ctx.known(known, desc)
         return False
 
     def still(c):
         r = oracle(spec, c, bench.run(spec, c))
-        return r is not None and not (r[0] and ctx.is_open(FINDING_ENV_APPEND))
+        return r is not None and not (r[0] and ctx.is_open(r[0]))
 
     small = shrink_case(case, still)
     r2 = oracle(spec, small, bench.run(spec, small))
@@ -767,14 +857,16 @@ def run(ctx: Ctx):
                 "ActionConfigFile argument; env prefix; default_env x JSONARGPARSE_DEFAULT_ENV); sources = every subset of {4 default config file slots "
                 "behind 3 patterns incl. a glob, env config variable (string or file), env variables} x 0-6 command line items (--k=v, --k v, --k+=v, "
                 "--k.item=v, --cfg file, --cfg string; k+ keys, nulls, nested or dotted keys inside configs) x {parse_args, parse_env, parse_env(dict), "
-                "parse_string, parse_path, parse_object}; each case: real vs Lean model key by key AND real vs independent ref_fold; "
+                "parse_string, parse_path, parse_object} x arguments of the call (defaults=False, env=True/False, parse_env(mapping) incl. the EMPTY "
+                "mapping while os.environ holds other values for the same variables) x six lists of default_config_files entries "
+                "(globs, listed != alphabetical order, files reached by two entries; the MODEL orders the files from the match relation); each case: real vs Lean model key by key AND real vs independent ref_fold; "
                 "non-trivial = some key is assigned by >= 2 sources besides its default; distinct by canonical JSON of (spec, case)")
     ctx.assumptions = [
         "values are generated in normal form (ints, strings at str-typed keys, int lists, str->int dicts): type adaptation is C02's subject",
         "a config mapping is flattened as its plain keys followed by its `key+` keys (a mapping has no order; this is the order merge_config implements)",
         "destinations are pairwise divergent (no argument's destination is a prefix of another's) and avoid Namespace method names (C11)",
-        "argparse tokenisation, glob and expanduser are outside the model: the ordered list of existing default config files is an input fact "
-        "computed by the harness from the documented rule (patterns as listed, matches of one pattern sorted)",
+        "argparse tokenisation, fnmatch and expanduser are outside the model: the match relation (which existing files an entry of "
+        "default_config_files matches, given unsorted) is an input fact; their order is computed by the model (defaultConfigFiles)",
     ]
     ctx.lean_build(extractors=["sources_order"])
     bench = Bench()
@@ -814,7 +906,9 @@ def run(ctx: Ctx):
         reals.append(bench.run(spec, case))
         ctx.count()
         ctx.hist("method", case["method"])
-        ctx.hist("default_config_files", len(present_files(case)))
+        ctx.hist("call", "defaults=%s env=%s" % (case.get("defaults", True), case.get("env_arg")))
+        ctx.hist("dcf_entries", ",".join(spec.get("dcf_patterns", DCF_PATTERNS)))
+        ctx.hist("default_config_files", len(present_files(spec, case)))
         ctx.hist("argv_items", len(case.get("argv", [])))
         ctx.hist("env", ("cfg+" if case.get("env_cfg") else "") + ("vars" if case.get("env_vars") else "") or "none")
         for it in case.get("argv", []):
